@@ -132,8 +132,16 @@ func OverlapDocument(t *rapid.T, acyclic bool) *ref.Doc {
 
 // IntrospectionDocument draws an introspection query over __schema / __type with fragments on
 // __Type that are spread at several nesting depths (the shape the depth rule must handle).
-func IntrospectionDocument(t *rapid.T) *ref.Doc {
+func IntrospectionDocument(t *rapid.T) *ref.Doc { return introspectionDocument(t, false) }
+
+// IntrospectionDocumentWithFragments: as above, with at least one fragment that every root spreads.
+func IntrospectionDocumentWithFragments(t *rapid.T) *ref.Doc { return introspectionDocument(t, true) }
+
+func introspectionDocument(t *rapid.T, force bool) *ref.Doc {
 	nfrag := rapid.IntRange(0, 3).Draw(t, "nfrag")
+	if force && nfrag == 0 {
+		nfrag = 1
+	}
 	names := make([]string, nfrag)
 	for i := range names {
 		names[i] = fmt.Sprintf("T%d", i)
@@ -188,6 +196,15 @@ func IntrospectionDocument(t *rapid.T) *ref.Doc {
 				{Kind: "Field", Name: rapid.SampledFrom([]string{"types", "queryType"}).Draw(t, "sroot"), Sels: typeSel(5, -1)}}})
 		} else {
 			roots = append(roots, &ref.Selection{Kind: "Field", Alias: fmt.Sprintf("r%d", i), Name: "__type", Args: []*ref.Arg{{Name: "name", Value: &ref.Value{Kind: "String", Raw: "Query"}}}, Sels: typeSel(5, -1)})
+		}
+	}
+	if force {
+		for _, r := range roots {
+			at := r
+			if r.Name == "__schema" {
+				at = r.Sels[0]
+			}
+			at.Sels = append(at.Sels, &ref.Selection{Kind: "Spread", Name: names[0]})
 		}
 	}
 	d.Ops = []*ref.Operation{{Op: "query", Sels: roots}}
